@@ -448,10 +448,24 @@ class Cluster:
             [self.some_sid()[0] for _ in range(rng.choice([1, 2]))])
         via = rng.randrange(self.nh + 1)     # nh == the write-only manager
         cb = None
+        addressee = None
         if via < self.nh and to is not None and not isinstance(to, list) \
                 and self.model.members(ns, to) == {to} and \
                 rng.random() < 0.6:
             cb = 'fn'
+            addressee = to
+        elif via < self.nh and to is not None and \
+                not isinstance(to, list) and not self.delayed and \
+                to in ROOMS and \
+                len(self.model.members(ns, to)) == 1 and rng.random() < 0.6:
+            # a callback addressed through a custom room that has one member
+            # (rooms named like somebody's session id are left out: the
+            # pub/sub managers file the callback under the room name, and the
+            # departure of the namesake - even from another namespace -
+            # discards it; exotic, noted in DESIGN 5 as an observation)
+            cb = 'fn'
+            addressee = next(iter(self.model.members(ns, to)))
+            self.ctx.count('callbacks_addressed_through_a_room')
         self.cur_op = ('emit', tok)
         want = self.model.recipients(ns, to, skip)
         # the application may well emit the very same thing twice in a row
@@ -461,7 +475,7 @@ class Cluster:
         info = {'tok': tok, 'to': to, 'skip': skip, 'ns': ns, 'via': via,
                 't0': self.clock, 'want0': set(want), 'got': [],
                 'cb': cb, 'cb_fired': [], 'n0': len(self.chan.log),
-                'times': times}
+                'times': times, 'addressee': addressee}
         self.emits[tok] = info
         if times == 2:
             self.ctx.count('identical_emits_repeated')
@@ -577,7 +591,8 @@ class Cluster:
                 # named like the addressed session id - may answer too, but
                 # the callback was registered for the addressed client: it
                 # is owed only to that client's acknowledgement)
-                info['acked_by_addressed'] = sid == info['to']
+                info['acked_by_addressed'] = sid == (
+                    info.get('addressee') or info['to'])
                 # acknowledgements without arguments, with falsy ones and
                 # with several
                 args = self.rng.choice([['ack', tok], ['ack', tok], [],
@@ -843,6 +858,7 @@ def run(ctx):
     ctx.require('identical_emits_repeated', 10)
     ctx.require('emits_with_class_valued_payload', 10)
     ctx.require('delivered_payloads_compared', 100)
+    ctx.require('callbacks_addressed_through_a_room', 5)
     # fresh hosts whose first connections arrive together (threaded server)
     from checks import c07_init
     ctx.require('fresh_host_cases', 3)
